@@ -182,6 +182,7 @@ func (ex *Exec) readerTask(id int, budget int) {
 // callR is the readers' API-call wrapper (panic -> violation; releases modelled locks).
 func (ex *Exec) callR(fn func() error) (err error) {
 	defer ex.sim.OpEnd()
+	defer ex.g.flushDeletes()
 	defer func() {
 		if r := recover(); r != nil {
 			st := stackOf()
